@@ -1382,6 +1382,39 @@ def rule_index_guarded(ctx, config='dev'):
     return r
 
 
+def _discharge_scope(f, r, scope, assumed, what):
+    unproven = {}
+    for b in scope:
+        a = BoundsAnalysis(f, b)
+        a.run()
+        for pt, v in sorted(a.arith.items()):
+            inst = '%s: %s %s on %s' % (b.path, v['kind'], v['op'] or '', v['ty'])
+            if v['ok']:
+                r.site(inst + ': ' + v['why'], v['span'], 'ok')
+            else:
+                unproven.setdefault((b.name, v['op']), []).append((b, v, inst))
+        for pt, v in sorted(a.sites.items()):
+            inst = '%s: %s' % (b.path, v['kind'])
+            if v['ok']:
+                r.site(inst + ': ' + v['why'], v['span'], 'ok')
+            elif v.get('via_index_vector'):
+                r.site(inst + ': not proven; assumed: element of an index vector (see INDEX-GUARDED)', v['span'], 'assumed')
+            else:
+                unproven.setdefault((b.name, 'index'), []).append((b, v, inst))
+    for key, lst in sorted(unproven.items(), key=repr):
+        allowed, reason = assumed.get(key, (0, None))
+        if len(lst) <= allowed:
+            for b, v, inst in lst:
+                r.site(inst + ': not proven; assumed: ' + reason, v['span'], 'assumed')
+            continue
+        for b, v, inst in lst:
+            r.site(inst + ': ' + v['why'], v['span'], 'violation')
+        r.violation('%s:%s:%d>%d' % (lst[0][0].path, key[1], len(lst), allowed), lst[0][1]['span'], lst[0][0].path,
+                    ('%d `%s` site(s) of ' + what + ' can panic (at most %d accepted%s): %s') % (
+                        len(lst), key[1], allowed, (' for: ' + reason) if reason else '',
+                        '; '.join('%s at %s (%s)' % (b.path, v['span'], v['why']) for b, v, inst in lst)))
+
+
 ENC_ASSUMED = {
     # (method of the encoder, operation): (count, reason)
     ('encode', 'Sub'): (1, 'LinesOnlyMappingsEncoder::encode: `mapping.generated_line - self.current_line` — segments arrive sorted by '
@@ -1399,7 +1432,7 @@ def rule_encoder_total(ctx, config='dev'):
                                     'addition stays inside the type, every shift amount is below the bit width, every table index is in '
                                     'range — each discharged by the zone analysis of the body, or listed with the input assumption it '
                                     'needs')
-    r.floor = 8 if f.meta().get('overflow_checks') else 1
+    r.floor = 4 if f.meta().get('overflow_checks') else 1
     tr = anchors.trait_path(f, 'MappingsEncoder')
     roots = [b for b in f.body_list if b.promoted is None and b.d['kind'] != 'Closure' and b.d.get('impl_trait') == tr and b.name == 'encode']
     if not roots:
@@ -1417,33 +1450,45 @@ def rule_encoder_total(ctx, config='dev'):
             hb = f.body(c.get('resolved') or c['path']) if c else None
             if hb is not None and hb.promoted is None:
                 work.append(hb)
-    unproven = {}
-    for b in scope:
-        a = BoundsAnalysis(f, b)
-        a.run()
-        for pt, v in sorted(a.arith.items()):
-            inst = '%s: %s %s on %s' % (b.path, v['kind'], v['op'] or '', v['ty'])
-            if v['ok']:
-                r.site(inst + ': ' + v['why'], v['span'], 'ok')
-            else:
-                unproven.setdefault((b.name, v['op']), []).append((b, v, inst))
-        for pt, v in sorted(a.sites.items()):
-            inst = '%s: %s' % (b.path, v['kind'])
-            if v['ok']:
-                r.site(inst + ': ' + v['why'], v['span'], 'ok')
-            else:
-                unproven.setdefault((b.name, 'index'), []).append((b, v, inst))
-    for key, lst in sorted(unproven.items(), key=repr):
-        allowed, reason = ENC_ASSUMED.get(key, (0, None))
-        if len(lst) <= allowed:
-            for b, v, inst in lst:
-                r.site(inst + ': not proven; assumed: ' + reason, v['span'], 'assumed')
+    _discharge_scope(f, r, scope, ENC_ASSUMED, 'the encoder')
+    r.check_floor()
+    return r
+
+
+VIEWS_ASSUMED = {
+    ('source', 'Add'): (1, 'ReplaceSource::source: the capacity hint adds string lengths (usize sums of sizes of live allocations cannot '
+                           'exceed the address space)'),
+}
+
+
+def rule_views_total(ctx, config='dev'):
+    """the content views of ReplaceSource do no unchecked position arithmetic"""
+    from .. import anchors
+    f = ctx.facts(config)
+    r = RuleResult('VIEWS-TOTAL', 'source(), rope(), buffer(), size() and to_writer() of ReplaceSource cannot panic on any replacement '
+                                  'positions (also beyond the end of the inner text): every overflow-checked operation and every index in '
+                                  'them and in the ReplaceSource helpers they call is discharged by the zone analysis (positions are '
+                                  'clamped by min / max, which the analysis understands) or listed with its reason; indices handed out by '
+                                  'the sorted index vector are assumed valid (INDEX-GUARDED says why)')
+    r.floor = 1
+    R = anchors.replace_source(f)
+    tr = anchors.trait_path(f, 'Source')
+    roots = [b for b in f.body_list if b.promoted is None and b.d['kind'] != 'Closure' and b.d.get('impl_adt') == R['adt']
+             and b.d.get('impl_trait') == tr and b.name in ('source', 'rope', 'buffer', 'size', 'to_writer')]
+    if len(roots) < 4:
+        raise anchors.AnchorMissing('content views of ReplaceSource: %d' % len(roots))
+    scope, work = [], list(roots)
+    while work:
+        b = work.pop()
+        if b in scope:
             continue
-        for b, v, inst in lst:
-            r.site(inst + ': ' + v['why'], v['span'], 'violation')
-        r.violation('%s:%s:%d>%d' % (lst[0][0].path, key[1], len(lst), allowed), lst[0][1]['span'], lst[0][0].path,
-                    '%d `%s` site(s) of the encoder can panic (at most %d accepted%s): %s' % (
-                        len(lst), key[1], allowed, (' for: ' + reason) if reason else '',
-                        '; '.join('%s at %s (%s)' % (b.path, v['span'], v['why']) for b, v, inst in lst)))
+        scope.append(b)
+        work += f.closures_of(b)
+        for pt, t in b.calls():
+            c = t.get('callee')
+            hb = f.body(c.get('resolved') or c['path']) if c else None
+            if hb is not None and hb.promoted is None and hb.d.get('impl_adt') == R['adt'] and not hb.d.get('impl_trait'):
+                work.append(hb)
+    _discharge_scope(f, r, scope, VIEWS_ASSUMED, 'the ReplaceSource content views')
     r.check_floor()
     return r
